@@ -177,7 +177,21 @@ IFinalize ==
   /\ pend' = [pend EXCEPT !.global = 0]
   /\ UNCHANGED <<seq, cur, kind, func, funcs, vregs, nann, nnodes>>
 
-Next == \/ \E g \in BOOLEAN : INewFunc(g) \/ IAddFunc(g) \/ IInvoke(g) \/ INewReg(g)
+(* BaseCompiler::on_reinit: BaseCompiler_clear + BaseBuilder::on_reinit (a new section node) *)
+IReinit ==
+  /\ Taken("IReinit")
+  /\ nnodes + 1 <= MaxNodes /\ nops >= 1
+  /\ LET n0 == nnodes + 1 IN
+     /\ seq' = <<n0>> /\ cur' = n0 /\ kind' = [x \in {n0} |-> "section"]
+     /\ func' = IF Bug = "reinitKeepsFunc" THEN func ELSE 0
+     /\ funcs' = {} /\ pend' = [local |-> 0, global |-> 0] /\ placed' = {}
+     /\ vregs' = IF Bug = "reinitKeepsRegs" THEN vregs ELSE <<>>
+     /\ nann' = 0 /\ fin' = 0
+     /\ Step([op |-> "Reinit", r |-> "Ok", n0 |-> n0], <<"Reinit">>)
+  /\ nnodes' = nnodes + 1
+
+Next == \/ IReinit
+        \/ \E g \in BOOLEAN : INewFunc(g) \/ IAddFunc(g) \/ IInvoke(g) \/ INewReg(g)
         \/ IAddFuncNode \/ IEndFunc \/ IFinalize
         \/ \E k \in {"inst", "funcret"} : IEmit(k)
         \/ \E i \in 0..MaxNodes : ISetCursor(i)
@@ -198,7 +212,8 @@ RefinesContract ==
         [] o.op = "NewConst"    -> NewConst(o.scope, o.okSize, o.r, o.pool, 1, 1, Proj')
         [] o.op = "NewReg"      -> NewReg(o.r, o.good, o.idx, o.size, o.align, o.name, {4}, "r", Proj')
         [] o.op = "NewStack"    -> NewStack(o.r, o.idx, o.size, o.align, o.wsize, o.walign, Proj')
-        [] o.op = "Finalize"    -> Finalize(o.r, o.fwd) ]_vars
+        [] o.op = "Finalize"    -> Finalize(o.r, o.fwd)
+        [] o.op = "Reinit"      -> Reinit(o.r, o.n0, 0, 0, Proj') ]_vars
 
 (* the documented post-conditions, as step properties of their own (clearer counterexamples) *)
 StepProps ==
